@@ -755,7 +755,111 @@ impl Gen<'_> {
     // Compositions that individual statement kinds rarely produce by chance.
     fn idiom(&mut self, out: &mut Vec<Stmt>) {
         let d = self.cfg.expr_depth;
-        match self.t.pick(14) {
+        match self.t.pick(16) {
+            14 | 15 => {
+                // A value that travels a route of 2..6 hops (stored in a
+                // container, spread, destructured, captured, passed, returned,
+                // iterated, kept in a property) before it is used: identity,
+                // aliasing and the `this` of a method must survive every hop.
+                let kind = self.t.pick(4);
+                let src = self.fresh("src");
+                let host = self.fresh("host");
+                let idf = self.fresh("idf");
+                let pickf = self.fresh("pick");
+                out.push(fn_decl(&idf, vec![var("x")], false, vec![ret(var("x"))]));
+                out.push(fn_decl(&pickf, vec![var("i"), var("r")], true, vec![ret(index(var("r"), var("i")))]));
+                out.push(declare(var(&host), obj(vec![pair("tag", string("H")), pair("tmp", null())])));
+                self.declare(&idf, Ty::Opaque, false);
+                self.declare(&pickf, Ty::Opaque, false);
+                self.declare(&host, Ty::Opaque, false);
+                let owner = self.fresh("own");
+                let init = match kind {
+                    0 => list(vec![int(1), int(2), int(3)]),
+                    1 => obj(vec![pair("k", int(1)), pair("l", list(vec![int(2)]))]),
+                    2 => {
+                        // A counter closure: calls through any alias advance one state.
+                        let c = self.fresh("cnt");
+                        out.push(declare(var(&c), int(0)));
+                        self.declare(&c, Ty::Int, false);
+                        func(vec![], false, vec![op_assign(var(&c), Op::Sum, int(1)), ret(var(&c))])
+                    },
+                    _ => {
+                        out.push(declare(var(&owner), obj(vec![pair("tag", string("O")), pair("who", func(vec![], false, vec![ret(prop(var("this"), "tag"))]))])));
+                        self.declare(&owner, Ty::Opaque, false);
+                        prop(var(&owner), "who")
+                    },
+                };
+                out.push(declare(var(&src), init));
+                self.declare(&src, Ty::Opaque, false);
+                let mut cur = src.clone();
+                let hops = 2 + self.t.pick(5);
+                for _ in 0..hops {
+                    let nxt = self.fresh("hop");
+                    let c = var(&cur);
+                    match self.t.pick(12) {
+                        0 => out.push(declare(var(&nxt), index(list(vec![c]), int(0)))),
+                        1 => out.push(declare(var(&nxt), prop(paren(obj(vec![pair("k", c)])), "k"))),
+                        2 => out.push(declare(list(vec![var(&nxt)]), list(vec![c]))),
+                        3 => out.push(declare(obj(vec![Prop::Pair(string("k"), var(&nxt))]), obj(vec![pair("k", c)]))),
+                        4 => {
+                            let r = self.fresh("rest");
+                            out.push(declare(list_items(vec![item(var("_")), item(var(&r))], true), list(vec![int(0), c])));
+                            self.declare(&r, Ty::Opaque, false);
+                            out.push(declare(var(&nxt), index(var(&r), int(0))));
+                        },
+                        5 => out.push(declare(var(&nxt), call(var(&idf), vec![c]))),
+                        6 => out.push(declare(var(&nxt), call(func(vec![], false, vec![ret(c)]), vec![]))),
+                        7 => out.push(declare(var(&nxt), index(list_items(vec![spread(list(vec![c]))], false), int(0)))),
+                        8 => {
+                            out.push(declare(var(&nxt), null()));
+                            out.push(for_(list(vec![var("_"), var("e")]), list(vec![c]), vec![assign(var(&nxt), var("e"))]));
+                        },
+                        9 => out.push(declare(var(&nxt), call_items(var(&pickf), vec![item(int(1)), spread(list(vec![int(0), c]))]))),
+                        10 => {
+                            // Kept in a property and read back: for a function
+                            // this re-homes its `this`.
+                            out.push(assign(prop(var(&host), "tmp"), c));
+                            out.push(declare(var(&nxt), prop(var(&host), "tmp")));
+                        },
+                        _ => {
+                            out.push(assign(index(var(&host), string("tmp")), c));
+                            out.push(declare(var(&nxt), index(var(&host), bin(Op::Sum, string("t"), string("mp")))));
+                        },
+                    }
+                    self.declare(&nxt, Ty::Opaque, false);
+                    cur = nxt;
+                }
+                let end = var(&cur);
+                match kind {
+                    0 => {
+                        out.push(op_assign(index(end.clone(), int(0)), Op::Sum, int(10)));
+                        out.push(assign(range_index(end.clone(), Some(int(1)), Some(int(2))), list(vec![int(7)])));
+                        out.push(print(var(&src)));
+                        out.push(print(bin(Op::RefEq, end.clone(), var(&src))));
+                        out.push(op_assign(end.clone(), Op::Sum, list(vec![int(4)])));
+                        out.push(print(bin(Op::RefEq, end, var(&src))));
+                        out.push(print(var(&src)));
+                    },
+                    1 => {
+                        out.push(assign(prop(end.clone(), "k"), int(5)));
+                        out.push(op_assign(index(prop(end.clone(), "l"), int(0)), Op::Mul, int(3)));
+                        out.push(assign(index(end.clone(), string("n")), int(9)));
+                        out.push(print(var(&src)));
+                        out.push(print(bin(Op::RefEq, end, var(&src))));
+                    },
+                    2 => {
+                        out.push(print(call(end.clone(), vec![])));
+                        out.push(print(call(var(&src), vec![])));
+                        out.push(print(call(end.clone(), vec![])));
+                        out.push(print(bin(Op::RefEq, end, var(&src))));
+                    },
+                    _ => {
+                        out.push(print(call(end, vec![])));
+                        out.push(print(call(var(&src), vec![])));
+                        out.push(print(call(prop(var(&owner), "who"), vec![])));
+                    },
+                }
+            },
             12 => {
                 // Arithmetic on operands away from the classic boundaries.
                 let (a, b) = arith_pair(self.t);
